@@ -24,6 +24,12 @@ type input struct {
 	N     int    `json:"N"`
 	Nodes int    `json:"nodes"`
 	Root  int    `json:"root"` // -1 nil, -2 foreign, >=0 roster index
+	// the root is handed over as a separate identity value (same key and address, another
+	// pointer), as after decoding a message
+	RootCopy bool `json:"root_copy,omitempty"`
+	// sim: CreateTree was called before on the same configuration with these parameters
+	PrevN     int `json:"prev_N,omitempty"`
+	PrevNodes int `json:"prev_nodes,omitempty"`
 }
 
 var keyPool []*key.Pair
@@ -80,7 +86,7 @@ func observe(ro *onet.Roster, gen func() *onet.Tree) (o obs) {
 			idclass[e.n.ID] = len(idclass)
 		}
 		o.IDs = append(o.IDs, idclass[e.n.ID])
-		if e.n.RosterIndex < 0 || e.n.RosterIndex >= len(ro.List) || ro.List[e.n.RosterIndex] != e.n.ServerIdentity {
+		if e.n.RosterIndex < 0 || e.n.RosterIndex >= len(ro.List) || !ro.List[e.n.RosterIndex].Equal(e.n.ServerIdentity) {
 			o.RidxOK = false
 		}
 		for _, c := range e.n.Children {
@@ -122,6 +128,9 @@ func run(raw json.RawMessage) lib.Case {
 	} else if in.Root >= 0 {
 		if in.Root < n {
 			rootSI = ro.List[in.Root]
+			if in.RootCopy {
+				rootSI = network.NewServerIdentity(rootSI.Public, rootSI.Address)
+			}
 		} else {
 			// an index beyond the roster: a member of a larger roster that is not in this one
 			rootSI = network.NewServerIdentity(kp(in.Root).Public, network.NewAddress(network.PlainTCP, "10.9.9.8:2000"))
@@ -131,6 +140,9 @@ func run(raw json.RawMessage) lib.Case {
 	switch in.Kind {
 	case "nary":
 		o = observe(ro, func() *onet.Tree { return ro.GenerateNaryTreeWithRoot(in.N, rootSI) })
+		if in.RootCopy {
+			class = "nary-rootcopy"
+		}
 	case "binary":
 		o = observe(ro, func() *onet.Tree { return ro.GenerateBinaryTree() })
 	case "star":
@@ -166,12 +178,22 @@ func run(raw json.RawMessage) lib.Case {
 		sim := &onet.SimulationBFTree{Hosts: in.Nodes, BF: in.N}
 		sc := &onet.SimulationConfig{Roster: ro}
 		o = observe(ro, func() *onet.Tree {
+			if in.PrevN > 0 {
+				// the same configuration went through CreateTree before, with other parameters
+				prev := &onet.SimulationBFTree{Hosts: in.PrevNodes, BF: in.PrevN}
+				if err := prev.CreateTree(sc); err != nil {
+					return nil
+				}
+			}
 			if err := sim.CreateTree(sc); err != nil {
 				return nil
 			}
 			return sc.Tree
 		})
 		class = "sim" + bigSuffix(in.Nodes, n)
+		if in.PrevN > 0 {
+			class = "sim-again" + bigSuffix(in.Nodes, n)
+		}
 	case "big":
 		o = observe(ro, func() *onet.Tree { return ro.GenerateBigNaryTree(in.N, in.Nodes) })
 		if in.Nodes == n {
@@ -255,6 +277,9 @@ func generate(rng *rand.Rand, tier string) []interface{} {
 		for bf := 1; bf <= maxBF; bf++ {
 			for root := -1; root < n; root++ {
 				ins = append(ins, input{Kind: "nary", Hosts: hostPattern(rng, n, 0), N: bf, Root: root})
+				if root >= 0 {
+					ins = append(ins, input{Kind: "nary", Hosts: hostPattern(rng, n, 0), N: bf, Root: root, RootCopy: true})
+				}
 			}
 			for pat := 0; pat < 4; pat++ {
 				for nodes := 1; nodes <= maxNodes; nodes++ {
@@ -326,7 +351,11 @@ func generate(rng *rand.Rand, tier string) []interface{} {
 			if rng.Intn(2) == 0 {
 				nodes = 1 + rng.Intn(2*n)
 			}
-			ins = append(ins, input{Kind: "sim", Hosts: hostPattern(rng, n, rng.Intn(4)), N: 1 + rng.Intn(4), Nodes: nodes})
+			in := input{Kind: "sim", Hosts: hostPattern(rng, n, rng.Intn(4)), N: 1 + rng.Intn(4), Nodes: nodes}
+			if rng.Intn(2) == 0 {
+				in.PrevN, in.PrevNodes = 1+rng.Intn(4), 1+rng.Intn(2*n)
+			}
+			ins = append(ins, in)
 		}
 	}
 	// sampled large part
